@@ -18,6 +18,8 @@ FUNCTIONS = ['dd.bdd.BDD.support', 'dd.bdd.BDD._support', 'dd.bdd.BDD.is_essenti
 STUBS = ['BDD._assert_int -> identity (a pure Python-type assertion)']
 
 KINDS = ['support', 'essential', 'count', 'pick_iter', 'pick']
+# 'count_after_count': an earlier count on another node of the same manager must not influence the next one
+ALL_KINDS = KINDS + ['count_after_count']
 EXTRA = [None, -1, 0, 1, 3]
 
 
@@ -115,9 +117,15 @@ class Harness:
                              for s in itertools.combinations(range(L), k)]
             arg = subs[c.choose(len(subs), 'care')]
 
+        w0 = z3.Int('w0')
+        if kind == 'count_after_count':
+            c.assume(m.present0(w0))
+        else:
+            c.assume(w0 == 1)
+
         def extract(model):
             case = m.extract(model)
-            case['args'] = dict(kind=kind, arg=arg, u=base.ev_int(model, u), via=via)
+            case['args'] = dict(kind=kind, arg=arg, u=base.ev_int(model, u), via=via, w0=base.ev_int(model, w0))
             case['harness'] = 'sat'
             return case
 
@@ -142,6 +150,16 @@ class Harness:
                 want = dep[arg] if arg < L else z3.BoolVal(False)
                 goals.append(Goal('is_essential_iff_depends', want if r else z3.Not(want)))
                 expect['result'] = r
+            elif kind == 'count_after_count':
+                first = T.count(SymInt(w0))
+                goals.append(Goal('first_count_is_number_of_models',
+                                  _z(first) * 2 ** L == oracle.bv_popcount(den, den.s(w0)) *
+                                  2 ** len(T.support(SymInt(w0)))))
+                supp = T.support(SymInt(u))
+                cnt = T.count(SymInt(u))
+                goals.append(Goal('count_after_an_earlier_count_is_number_of_models',
+                                  _z(cnt) * 2 ** L == oracle.bv_popcount(den, f) * 2 ** len(supp)))
+                expect['result'] = None
             elif kind == 'count':
                 supp = T.support(SymInt(u))
                 n = None if arg is None else len(supp) + arg
@@ -246,6 +264,19 @@ def replay(case):
             if bool(r) != want:
                 return dict(violates=True, key='is_essential/wrong',
                             detail=f'is_essential({u}, {nm}) = {r}, function {f:#x}', observed=obs)
+        elif kind == 'count_after_count':
+            w0 = a.get('w0', 1)
+            fw = concrete.tt(bdd, w0)
+            kw = sum(1 for i in range(L) if concrete.depends_tt(fw, i, L))
+            first = T.count(w0)
+            if first * 2 ** L != bin(fw).count('1') * 2 ** kw:
+                return dict(violates=True, key='count/wrong', detail=f'count({w0}) = {first}, function {fw:#x}', observed=obs)
+            cnt = T.count(u)
+            k = len(supp_true)
+            if cnt * 2 ** L != bin(f).count('1') * 2 ** k:
+                return dict(violates=True, key='count/wrong-after-earlier-count',
+                            detail=f'count({w0}) = {first}, then count({u}) = {cnt}, but function {f:#x} has '
+                                   f'{bin(f).count("1") * 2 ** k // 2 ** L} models over its support', observed=obs)
         elif kind == 'count':
             k = len(supp_true)
             n = None if arg is None else k + arg
